@@ -16,7 +16,7 @@ ID = 'C04'
 LEVEL = 'exploration'
 TECHNIQUE = 'runtime monitoring: differential execution against an executable deletion/merge model calibrated on the repository fixtures, plus a model-free wrap relation'
 LEVEL_TEXT = ('Held on the generated histories only: 2-4 stages with !del, !merge, !clear, value-less !del and priorities at every depth (deleting nodes nested '
-              '1-4 levels down, child keys equal to ancestor keys, lists of scalars / mappings / lists, explicitly deleting empty containers) are built and '
+              '1-4 levels down, child keys equal to ancestor keys, lists of scalars / mappings / lists, explicitly deleting empty containers, !merge index mappings with several value-less !del in any key order) are built and '
               'compared type-exactly with the model; the model must first reproduce all usable dict/list/new_and_notnew fixtures (else inconclusive).')
 LEVEL_NOTE = ('Trusted: model.py as the reading of the statement (calibrated on 44 fixtures). Out of the checked domain because the statement is silent: scalar/container '
               'conflicts that would discard higher-priority entries, priority tags on list elements, nested conflicting priority tags, '
